@@ -137,7 +137,7 @@ type Rewriter struct {
 	randFn func() int64
 	nowFn  func() time.Time
 
-	orderedBy bool
+	orderedBy int // number of enclosing ORDER BY terms
 	modified  bool
 	returning bool
 	jdValue   string
@@ -158,6 +158,7 @@ func NewRewriter() *Rewriter {
 // Do rewrites the provided statement. If the statement is rewritten, the second return value is true.
 func (rw *Rewriter) Do(stmt sql.Statement) (sql.Statement, bool, bool, error) {
 	rw.modified = false
+	rw.orderedBy = 0
 	rw.jdValue = ""
 	node, err := sql.Walk(rw, stmt)
 	if err != nil {
@@ -195,7 +196,7 @@ func (rw *Rewriter) Visit(node sql.Node) (w sql.Visitor, n sql.Node, err error) 
 		}
 	case *sql.OrderingTerm:
 		// NO random() rewriting past this point.
-		rw.orderedBy = true
+		rw.orderedBy++
 		return rw, node, nil
 	case *sql.Call:
 		// If used, ensure the value is same for the duration of the statement
@@ -235,10 +236,10 @@ func (rw *Rewriter) Visit(node sql.Node) (w sql.Visitor, n sql.Node, err error) 
 				n.Args[1] = jd
 			}
 			rw.modified = true
-		} else if !rw.orderedBy && rw.RewriteRand && strings.EqualFold(n.Name.Name, "random") {
+		} else if rw.orderedBy == 0 && rw.RewriteRand && strings.EqualFold(n.Name.Name, "random") {
 			retNode = &sql.NumberLit{Value: strconv.Itoa(int(rw.randFn()))}
 			rw.modified = true
-		} else if !rw.orderedBy && rw.RewriteRand && strings.EqualFold(n.Name.Name, "randomblob") {
+		} else if rw.orderedBy == 0 && rw.RewriteRand && strings.EqualFold(n.Name.Name, "randomblob") {
 			if len(n.Args) == 1 {
 				lit, ok := n.Args[0].(*sql.NumberLit)
 				if !ok {
@@ -259,7 +260,7 @@ func (rw *Rewriter) Visit(node sql.Node) (w sql.Visitor, n sql.Node, err error) 
 func (rw *Rewriter) VisitEnd(node sql.Node) (sql.Node, error) {
 	switch node.(type) {
 	case *sql.OrderingTerm:
-		rw.orderedBy = false
+		rw.orderedBy--
 	}
 	return node, nil
 }
